@@ -8,7 +8,8 @@
    state that the correspondence check compares with the implementation; on every generated case
    the check also evaluates that the two layers agree (observation kind 210). *)
 From Coq Require Import List Bool ZArith QArith.
-From GV Require Import Base.Outcome Model.GState Model.Partition Spec.PartitionDef Proofs.PartitionOk.
+From GV Require Import Base.Outcome Base.AMap Model.GState Model.Partition Spec.PartitionDef
+     Proofs.PartitionOk Proofs.PartitionStateOk.
 Import ListNotations.
 
 Section C12.
@@ -60,6 +61,22 @@ Section C12.
     ~ is_partition_spec nodes comms -> is_partition_model teqb nodes comms = false.
   Proof. exact (not_partition_rejected teqb teqb_spec). Qed.
 End C12.
+
+(* The state-level transcription of is_partition (the one compared with the implementation: it
+   reads nodes_map / nodes_map_rev through get_node) computes the list-level test, and hence decides
+   the definition, on every state whose node indexes are coherent with its node list; coherence is
+   evaluated by [nodes_coherentb] on every generated case (observation 210). *)
+Theorem C12_is_partition_state :
+  forall (T A : Type) (teqb : T -> T -> bool), (forall x y, teqb x y = true <-> x = y) ->
+  forall (g : gstate T A) (comms : list (list T)),
+    nodes_coherent teqb g -> NoDup (names_of g) -> Forall (@NoDup T) comms ->
+    (is_partition teqb g comms = Ok true <-> is_partition_spec (names_of g) comms).
+Proof. exact (@is_partition_state_correct). Qed.
+
+Theorem C12_nodes_coherentb_sound :
+  forall (T A : Type) (teqb : T -> T -> bool), (forall x y, teqb x y = true <-> x = y) ->
+  forall g : gstate T A, nodes_coherentb teqb g = true -> nodes_coherent teqb g.
+Proof. exact (@nodes_coherentb_sound). Qed.
 
 (* ... with NotAPartition, by the state-level transcription of modularity() *)
 Theorem C12_rejects : forall (T A : Type) (teqb tltb : T -> T -> bool) (g : gstate T A) comms weighted r,
